@@ -368,7 +368,11 @@ def enforce(A: spmatrix,
     """
     b, x, I, D = _init_bc(A, b, x, I, D)
 
-    Aout = A if overwrite else A.copy()
+    if A.format != 'csr':
+        # the rows are zeroed through the CSR index arrays
+        Aout = A.tocsr(copy=True)
+    else:
+        Aout = A if overwrite else A.copy()
 
     # set rows on lhs to zero
     start = Aout.indptr[D]
